@@ -134,6 +134,21 @@ def check(plan, ctx):
         except (TypeError, ValueError, KeyError):
             data._group_colnames = ()           # a column that cannot be grouped: not the subject here
     _check_sort(plan, data, ctx)
+    if plan["keys"] and plan["frame"]["n"]:
+        # select and sort commute: a frame holding nothing but the first key column, sorted by it, shows the same
+        # sequence of key values as the whole frame sorted by it (rows that tie are identical there)
+        k, d = plan["keys"][0]
+        whole = build.cells(data.sort(**{k: d})[k])
+        alone = di.DataFrame({k: data[k].copy()})
+        got = build.cells(ctx.call("sort of a one-column frame", lambda: alone.sort(**{k: d}))[k])
+        # (which end the missing values go to on a descending sort is left open by the statement: compared without them)
+        g2, w2 = [c for c in got if c is not None], [c for c in whole if c is not None]
+        idx = [i for i, c in enumerate(got) if c is not None]
+        together = not idx or (idx == list(range(idx[0], idx[0] + len(idx))) and (idx[0] == 0 or idx[-1] == len(got) - 1))
+        if len(got) != len(whole) or len(g2) != len(w2) or not together or \
+                not all(build.same_cell(a, b, numeric_loose=True) for a, b in zip(g2, w2)):
+            raise Violation("a frame holding only the key column sorts differently from the whole frame", key=k, dir=d,
+                            alone=got, whole=whole)
     if plan.get("edits"):
         fp = {"n": plan["frame"]["n"], "cols": [dict(c, vals=list(c["vals"])) for c in plan["frame"]["cols"]]}
         for name, row, v in plan["edits"]:
